@@ -469,7 +469,9 @@ ASSUME = ['the real squid binary (ASan build of the current tree, -N, collapsed_
           'each environment action (client arrival(s), client disconnect, one origin step) is followed by running Squid to quiescence; interleavings are at that granularity',
           'fresh URL per execution on a reused instance (health-checked after every execution); violations are replayed twice on a fresh instance before being reported',
           'clients speak HTTP/1.1, so Squid can always frame a body of unknown length with chunked coding; a response with close-delimited framing counts as complete once Squid closed the connection',
-          'virtual time stands still during the schedule (no timeout fires)']
+          'virtual time stands still during the schedule (no timeout fires)',
+          'thorough tier, SMP part: checks/C19.py\'s SMP lock-step world (2 workers, shared memory cache + rock, collapsed_forwarding on) and executor are reused; '
+          'kid steps are explored with <= 2 (4000-byte object) / <= 1 (30000, 90000) deviations from the default schedule']
 
 
 def _wrap(one, case, ch):
@@ -489,6 +491,123 @@ def build(ctx):
     if waited > 20:                 # a long wait in the build lock / a rebuild is not the check's time
         ctx.deadline_s += waited - 20
     return waited
+
+
+# ------------------------------------------------------------------------------------------------ SMP part (thorough)
+
+def smp_cases():
+    """Collapsing ACROSS workers (Transients + CollapsedForwarding notifications): C19's SMP lock-step machinery with
+    collapsed_forwarding on and C18's oracle.  A (worker 1) starts the fetch; B (worker 2) arrives after the origin has
+    received it and before the origin finishes; C (worker 2) arrives after the end."""
+    out = []
+    for sz, fr, bound in (('slot+1', 'cl', 2), ('slot+1', 'chunked', 2), ('1page', 'cl', 1), ('1page', 'chunked', 1), ('3pages', 'cl', 1)):
+        nparts = 6 if bound == 2 else 2
+        for part in range(nparts):
+            out.append({'scenario': 'read-during-write', 'size': sz, 'framing': fr, 'cf': 'on', 'store': 'shm', 'bound': bound, 'part': part, 'nparts': nparts})
+    return out
+
+
+def smp_judge(r):
+    """C18's oracle on one SMP execution (r = result of C19.execute): C19's per-response oracle has already run."""
+    if r['violation']:
+        return r['violation']
+    if r['fetches'] > 1:
+        return ('smp-extra-origin-request', 'client B (worker 2) arrived while worker 1 was fetching the cacheable URL, yet the origin received %d requests for it' % r['fetches'])
+    bad = {n: t for n, t in r['tags'].items() if not re.match(r'^(hit|miss):v1:complete$', t)}
+    if bad:
+        return ('smp-not-delivered', 'the origin delivered a cacheable response completely but client(s) %r did not end up with the complete response' % bad)
+    return None
+
+
+def run_smp(ctx, t_end):
+    from vverif import core, lssmp
+    c19 = core.load_check('C19')
+    lssmp.ensure_smp_shim(ctx)
+    units = smp_cases()
+
+    def worker(shard, mine):
+        out = {'units_done': 0, 'execs': 0, 'states': set(), 'transitions': 0, 'violations': [], 'collapsed': 0, 'kicks': 0, 'crashes': [], 'sample': None, 'replays': 0}
+        st = {'w': None, 'n': 0}
+
+        def fresh():
+            if st['w'] is not None:
+                out['kicks'] += st['w'].sq.kicks
+                st['w'].stop()
+                st['w'] = None
+            w = c19.World(ctx, 'smp%d' % shard, ls.port_base_for_check(ctx.pid, shard) + 10, 'on', 'shm')
+            try:
+                w.start()
+            except BaseException:
+                w.stop()
+                raise
+            st['w'] = w
+
+        def one(case, choices):
+            if st['w'] is None:
+                fresh()
+            st['n'] += 1
+            r = c19.execute(st['w'], case, choices, 'm%02dn%06d' % (shard, st['n']))
+            r['violation'] = smp_judge(r)
+            hp = st['w'].sq.health_problems()
+            if hp:
+                r['crash'] = hp
+                fresh()
+            return r
+        try:
+            for case in mine:
+                if time.time() > t_end:
+                    break
+
+                def on(ch, r):
+                    out['execs'] += 1
+                    out['states'].update(r['states'])
+                    out['transitions'] += r['transitions']
+                    if r['fetches'] == 1 and r['tags'].get('B', '').endswith('v1:complete'):
+                        out['collapsed'] += 1
+                    if r.get('crash'):
+                        out['crashes'].append((c19.case_name(case), list(ch.choices()), '; '.join(r['crash'])[:2000]))
+                    if out['sample'] is None and out['execs'] == 3:
+                        out['sample'] = {'case': 'smp/' + c19.case_name(case), 'deviations': c19._taken(ch), 'clients': r['tags'], 'origin_requests': r['fetches']}
+                    if r['violation']:
+                        k0, what = r['violation']
+                        k = 'smp/%s:%s' % (case['framing'], k0)
+                        if not any(k == kk for kk, _, _ in out['violations']):
+                            for attempt in range(2):
+                                if attempt == 0:
+                                    fresh()
+                                r2 = one(case, list(ch.choices()))
+                                out['replays'] += 1
+                                if not r2['violation'] or r2['violation'][0] != k0:
+                                    raise HarnessError('SMP violation not reproducible: %s %r: %s' % (c19.case_name(case), ch.choices(), what))
+                            out['violations'].append((k, 'SMP, %s, deviations %s: %s' % (c19.case_name(case), c19._taken(ch), what), {'smp': True, 'case': case, 'choices': list(ch.choices())}))
+                        return len(out['violations']) >= 4
+                    return False
+                res = c19.explore_part(lambda ch: c19._wrap(one, case, ch), on, case['bound'], case['part'], case['nparts'], t_end)
+                if res['stopped'] is None:
+                    out['units_done'] += 1
+                elif res['stopped'] == 'on_exec':
+                    break
+        finally:
+            if st['w'] is not None:
+                out['kicks'] += st['w'].sq.kicks
+                st['w'].stop()
+        out['states'] = list(out['states'])
+        return out
+    parts = ls.run_sharded(ctx, worker, units)
+    agg = {'units': len(units), 'units_done': 0, 'execs': 0, 'transitions': 0, 'collapsed': 0, 'kicks': 0, 'replays': 0}
+    states, vio, crashes, samples = set(), {}, [], []
+    for p in parts:
+        if p is None:
+            continue
+        for k in ('units_done', 'execs', 'transitions', 'collapsed', 'kicks', 'replays'):
+            agg[k] += p[k]
+        states.update(p['states'])
+        for k, what, rp in p['violations']:
+            vio.setdefault(k, (what, rp))
+        crashes += p['crashes']
+        if p['sample']:
+            samples.append(p['sample'])
+    return agg, states, vio, crashes, samples
 
 
 def run(ctx):
@@ -607,6 +726,21 @@ def run(ctx):
         per_case.update(p['per_case'])
         done += p['cases_done']
     complete = len(done) == len(cases)
+    smp = None
+    if not ctx.quick and not vio and not crashes:
+        smp, smp_states, smp_vio, smp_crashes, smp_samples = run_smp(ctx, ctx.t0 + ctx.deadline_s - 40)
+        states.update(smp_states)
+        tot['transitions'] += smp['transitions']
+        tot['execs'] += smp['execs']
+        tot['kicks'] += smp['kicks']
+        tot['replays'] += smp['replays']
+        vio.update(smp_vio)
+        crashes += [('smp/' + n, c, w) for n, c, w in smp_crashes]
+        samples = samples[:4] + smp_samples[:2]
+        if smp['units_done'] < smp['units']:
+            deadline = True
+        elif not smp_vio and smp['collapsed'] < 50:
+            raise HarnessError('vacuity guard: only %d SMP executions in which worker 2 collapsed onto worker 1\'s fetch' % smp['collapsed'])
     violations = [Violation(k, what, rp) for k, (what, rp) in sorted(vio.items())]
     seen_crash = set()
     for name, choices, what in crashes:
@@ -627,7 +761,7 @@ def run(ctx):
         'rule': 'case = ending of the first fetch (complete cacheable / abort instead of origin step n by FIN or RST / response that must not be shared) x origin framing '
                 '(Content-Length, chunked, close-delimited) x k clients x {first client alone, first two clients in one burst} x {first client stays, disconnects at any point} x size; '
                 'per case every order of the enabled actions {next client arrives, next origin step, first client disconnects} is executed',
-        'build_step_s': round(build_s, 1), 'samples': samples[:6], 'executions_per_case_sample': dict(sorted(per_case.items())[:10]),
+        'smp_part': smp if smp is not None else 'thorough tier only', 'build_step_s': round(build_s, 1), 'samples': samples[:6], 'executions_per_case_sample': dict(sorted(per_case.items())[:10]),
     }
     return Result(LEVEL, cov, violations, ASSUME)
 
@@ -636,6 +770,20 @@ def replay(ctx, data):
     ls.build_squid(ctx)
     if not data.get('case'):
         raise HarnessError('this replay file records a crash; re-run the tier to reproduce')
+    if data.get('smp'):
+        from vverif import core, lssmp
+        c19 = core.load_check('C19')
+        lssmp.ensure_smp_shim(ctx)
+        w = c19.World(ctx, 'smp0', ls.port_base_for_check(ctx.pid, 0) + 10, 'on', 'shm')
+        try:
+            w.start()
+            r = c19.execute(w, data['case'], data['choices'], 'm00n000001')
+            print('\n'.join(r['transcript']))
+            print('clients:', r['tags'], 'origin requests:', r['fetches'])
+            v = smp_judge(r)
+        finally:
+            w.stop()
+        return Result(LEVEL, {}, [Violation('smp/%s:%s' % (data['case']['framing'], v[0]), v[1], data)] if v else [], ASSUME)
     w = make_world(ctx, 0)
     w.start()
     try:
